@@ -260,6 +260,39 @@ pub fn opts_for(ctx: &Ctx, k: u64, tags: TagMode, tiny: bool) -> GenOpts {
     o
 }
 
+/// `Sentence::default()` (the one-space sentence) handed straight to `predict`, with models whose patterns
+/// match a space: behaves like `from_raw(" ")` — no boundary, no score, no panic.
+fn default_sentence_prediction(ctx: &mut Ctx) {
+    let r = guard(|| -> Result<(Obs, Obs), String> {
+        let m = ModelData {
+            char_ngram_model: vec![vgen::mirror::NgramData { ngram: " ".into(), weights: vec![5, -5] }],
+            dict_model: vec![vgen::mirror::WordWeightRecord { word: " ".into(), weights: vec![3, 4], comment: String::new() }],
+            type_ngram_model: vec![vgen::mirror::NgramData { ngram: vec![6], weights: vec![1, 2] }],
+            bias: 1,
+            char_window_size: 1,
+            type_window_size: 1,
+            ..ModelData::default()
+        };
+        let p = new_predictor(&m, false)?;
+        let mut d = Sentence::default();
+        p.predict(&mut d);
+        let mut f = Sentence::from_raw(" ").map_err(|e| e.to_string())?;
+        p.predict(&mut f);
+        Ok((observe(&d, false), observe(&f, false)))
+    });
+    ctx.eval(1);
+    ctx.count("default_sentences_predicted_directly", 1);
+    match r {
+        Ok(Ok((d, f))) => {
+            if d != f || !d.scores.is_empty() {
+                ctx.violation("C01:default_sentence_predicts_differently_from_the_same_raw_text", J::obj(vec![("default", d.to_json()), ("from_raw", f.to_json())]));
+            }
+        }
+        Ok(Err(e)) => ctx.violation("C01:well_formed_model_rejected", J::s(&e)),
+        Err(p) => ctx.violation(&format!("C01:predict_panicked:{}", panic_site(&p)), J::obj(vec![("panic", J::s(&p)), ("variant", J::s("Sentence::default()"))])),
+    }
+}
+
 pub fn run_c01(ctx: &mut Ctx, from: u64, to: u64, tiny: bool) {
     for k in from..to {
         ctx.begin_case(k);
@@ -271,6 +304,9 @@ pub fn run_c01(ctx: &mut Ctx, from: u64, to: u64, tiny: bool) {
             gen_case(&mut rng, &opts_for(ctx, k, TagMode::Maybe, tiny))
         };
         count_model_facts(ctx, &case.model);
+        if k % 64 == 21 {
+            default_sentence_prediction(ctx);
+        }
         let Some(p_plain) = (if k % 6 == 5 && !tiny { make_predictor_restored(ctx, "C01", &case, false, (k % 16) as usize) } else { make_predictor(ctx, "C01", &case, false) }) else { continue };
         let p_tag = if case.model.tag_models.is_empty() { None } else { make_predictor(ctx, "C01", &case, true) };
         let other = if k % 4 == 0 { new_predictor(&perturb(&case.model, &case.texts, &mut rng), false).ok() } else { None };
@@ -579,6 +615,30 @@ pub fn run_c06(ctx: &mut Ctx, from: u64, to: u64, tiny: bool) {
                     let before_tok = ctx_counter(ctx, "tokens_with_tag_model");
                     check_tags(ctx, "C06", &case, text, &obs, with_cands, if forced { "forced boundaries" } else { "predicted boundaries" });
                     modelled += ctx_counter(ctx, "tokens_with_tag_model") - before_tok;
+                    if rng.chance(1, 4) && text.len() >= 2 {
+                        // boundaries edited after the first fill_tags, then fill_tags again: the tags are those of
+                        // the tokens as they are now
+                        let mut labels: Vec<u8> = gen_labels(&mut rng, text.len() - 1, 0);
+                        force_tokens(&mut rng, m, text, &mut labels);
+                        let r3 = guard(|| {
+                            for (b, &l) in s.boundaries_mut().iter_mut().zip(&labels) {
+                                *b = boundary_of(l);
+                            }
+                            s.fill_tags();
+                            observe(&s, with_cands)
+                        });
+                        ctx.eval(1);
+                        ctx.count("sentences_refilled_after_boundary_edit", 1);
+                        match r3 {
+                            Ok(o3) => {
+                                check_tags(ctx, "C06", &case, text, &o3, with_cands, "fill_tags again after a boundary edit");
+                            }
+                            Err(p) => ctx.violation(
+                                &format!("C06:fill_tags_panicked:{}", panic_site(&p)),
+                                J::obj(vec![("panic", J::s(&p)), ("variant", J::s("fill_tags again after a boundary edit")), ("case", case_json(&case, Some(text)))]),
+                            ),
+                        }
+                    }
                     if rng.chance(1, 4) {
                         // the same object is then analysed by a tag-predicting predictor whose model has no tag
                         // model at all: the tags of that analysis are "none", whatever ran before
@@ -702,7 +762,13 @@ pub fn run_c14(ctx: &mut Ctx, from: u64, to: u64, tiny: bool) {
         ctx.flag("predictors_with_tag_prediction_on_tagless_model", tags && m.tag_models.is_empty());
         ctx.flag("predictors_with_tag_prediction", tags);
         let Some(mut p) = make_predictor(ctx, "C14", &case, tags) else { continue };
-        let trailing: Vec<u8> = (0..rng.below(40)).map(|_| rng.below(256) as u8).collect();
+        let mut trailing: Vec<u8> = (0..rng.below(40)).map(|_| rng.below(256) as u8).collect();
+        if rng.chance(1, 6) {
+            // bytes that look like small structured data (version fields, flags, option tags)
+            let head: &[u8] = *rng.pick(&[&[1u8, 0][..], &[1, 1], &[0, 0, 0, 0], &[1], &[2, 0, 1, 0], &[0xff, 0xff]]);
+            trailing.splice(0..0, head.iter().copied());
+            ctx.count("trailing_bytes_resembling_structured_data", 1);
+        }
         let ser = guard(|| p.serialize_to_vec());
         let mut bytes = match ser {
             Ok(Ok(b)) => b,
